@@ -252,6 +252,10 @@ was rewritten to `= '�'`), U+FFFD (matches every stray byte) are refused now. 
 example : matchExactTree (anchored [cls []]) = none ∧ matchExactTree (anchored [cap (.mk .literal 212 [0xD800] [])]) = none ∧
     matchExactTree (anchored [.mk .literal 212 [0xFFFD] []]) = none ∧
     matchExactTree (anchored [cls [0xD7FF, 0xD800]]) = none := by decide
+/-- The hypothesis `RegexpLink` of the rewrite theorems is satisfiable (the theorems are not vacuous). -/
+example : RegexpLink (fun _ => some (anchored [lit ['f', 'o', 'o']]))
+    (fun _ x => searchB (anchored [lit ['f', 'o', 'o']]) (decodeStr x)) :=
+  ⟨fun _ _ h => by cases h; decide, fun _ _ h _ => by cases h; rfl⟩
 /-- A rewritten condition: `t !~ /^(a|b)c$/` becomes `(t != 'ac' AND t != 'bc')`, the top-level
 parentheses stripped. -/
 example :
